@@ -441,17 +441,9 @@ impl SingleSubLowerer<'_, '_> {
         eq_sign: &Sp<ast::AssignOpKind>,
         cases: &[Option<Sp<ast::Expr>>],
     ) -> Result<(), ErrorReported>{
-        // It should be impossible to get here for a simple expression, I think?
-        // Those would've hit an ExprClass::Simple case in another method first...
-        match self.classify_expr(whole_expr)? {
-            ExprClass::Simple(SimpleExpr { .. }) => {
-                self.ctx.emitter.emit(bug!(
-                    message("unhandled simple diff switch"),
-                    note("I didn't think this was possible. You get a cookie!"),
-                )).ignore();
-            },
-            ExprClass::NeedsElaboration(TemporaryExpr { .. }) => {},
-        }
+        // A simple expression usually hits an ExprClass::Simple case in another method first, but it can get here
+        // (e.g. `a = _S(1.5:);`).  The elaboration below handles that just as well.
+        self.classify_expr(whole_expr)?;
 
         // This doesn't actually need a temporary.
         // We can just elaborate it into separate assignment statements on each difficulty.
